@@ -98,30 +98,33 @@ class CFDataProcessor:
                 lines = [line.strip() for line in f if line.strip()] # Read non-empty lines
 
             if object_type.lower() == 'graph':
-                vertex_names = []
+                vertex_names = None
                 edges = []
                 for line in lines:
                     if line.startswith("VERTICES:"):
-                        vertex_names = [name.strip() for name in line.replace("VERTICES:", "").split(',')]
+                        names_part = line.replace("VERTICES:", "")
+                        # an empty list is written as an empty field, not as one empty name
+                        vertex_names = [name.strip() for name in names_part.split(',')] if names_part.strip() else []
                     elif line.startswith("EDGE:"):
                         parts = [part.strip() for part in line.replace("EDGE:", "").split(',')]
                         if len(parts) == 3:
                             edges.append((parts[0], parts[1], int(parts[2])))
                         else:
                             print(f"Warning: Malformed EDGE line: {line}")
-                if not vertex_names:
-                    raise ValueError("VERTICES line missing or empty in TXT file for graph.")
+                if vertex_names is None:
+                    raise ValueError("VERTICES line missing in TXT file for graph.")
                 return CFGraph(set(vertex_names), edges)
             
             elif object_type.lower() == 'divisor':
-                graph_vertex_names = []
+                graph_vertex_names = None
                 graph_edges = []
                 divisor_degrees_list = []
                 parsing_degrees = False
 
                 for line in lines:
                     if line.startswith("GRAPH_VERTICES:"):
-                        graph_vertex_names = [name.strip() for name in line.replace("GRAPH_VERTICES:", "").split(',')]
+                        names_part = line.replace("GRAPH_VERTICES:", "")
+                        graph_vertex_names = [name.strip() for name in names_part.split(',')] if names_part.strip() else []
                     elif line.startswith("GRAPH_EDGE:"):
                         parts = [part.strip() for part in line.replace("GRAPH_EDGE:", "").split(',')]
                         if len(parts) == 3:
@@ -137,8 +140,8 @@ class CFDataProcessor:
                         else:
                             print(f"Warning: Malformed DEGREE line: {line}")
                 
-                if not graph_vertex_names:
-                    raise ValueError("GRAPH_VERTICES line missing or empty in TXT file for divisor.")
+                if graph_vertex_names is None:
+                    raise ValueError("GRAPH_VERTICES line missing in TXT file for divisor.")
                 
                 graph = CFGraph(set(graph_vertex_names), graph_edges)
                 # For CFDivisor constructor, all graph vertices will default to degree 0 
@@ -146,13 +149,14 @@ class CFDataProcessor:
                 return CFDivisor(graph, divisor_degrees_list)
 
             elif object_type.lower() == 'orientation':
-                graph_vertex_names = []
+                graph_vertex_names = None
                 graph_edges = []
                 orientations_list = []
                 parsing_orientations = False
                 for line in lines:
                     if line.startswith("GRAPH_VERTICES:"):
-                        graph_vertex_names = [name.strip() for name in line.replace("GRAPH_VERTICES:", "").split(',')]
+                        names_part = line.replace("GRAPH_VERTICES:", "")
+                        graph_vertex_names = [name.strip() for name in names_part.split(',')] if names_part.strip() else []
                     elif line.startswith("GRAPH_EDGE:"):
                         parts = [part.strip() for part in line.replace("GRAPH_EDGE:", "").split(',')]
                         if len(parts) == 3: 
@@ -167,19 +171,20 @@ class CFDataProcessor:
                             orientations_list.append((parts[0], parts[1]))
                         else: 
                             print(f"Warning: Malformed ORIENTED line: {line}")
-                if not graph_vertex_names: 
+                if graph_vertex_names is None: 
                     raise ValueError("GRAPH_VERTICES missing for orientation.")
                 graph = CFGraph(set(graph_vertex_names), graph_edges)
                 return CFOrientation(graph, orientations_list)
 
             elif object_type.lower() == 'firingscript':
-                graph_vertex_names = []
+                graph_vertex_names = None
                 graph_edges = []
                 script_dict = {}
                 parsing_script = False
                 for line in lines:
                     if line.startswith("GRAPH_VERTICES:"):
-                        graph_vertex_names = [name.strip() for name in line.replace("GRAPH_VERTICES:", "").split(',')]
+                        names_part = line.replace("GRAPH_VERTICES:", "")
+                        graph_vertex_names = [name.strip() for name in names_part.split(',')] if names_part.strip() else []
                     elif line.startswith("GRAPH_EDGE:"):
                         parts = [part.strip() for part in line.replace("GRAPH_EDGE:", "").split(',')]
                         if len(parts) == 3: 
@@ -194,7 +199,7 @@ class CFDataProcessor:
                             script_dict[parts[0]] = int(parts[1])
                         else: 
                             print(f"Warning: Malformed FIRING line: {line}")
-                if not graph_vertex_names: 
+                if graph_vertex_names is None: 
                     raise ValueError("GRAPH_VERTICES missing for firingscript.")
                 graph = CFGraph(set(graph_vertex_names), graph_edges)
                 return CFiringScript(graph, script_dict)
